@@ -537,6 +537,9 @@ def check_lean(report, module, theorems, search_hint=None):
 
 CPP_MAIN_VERSIONS_HEAD = r'''
 #include <fstream>
+#include <cstdlib>
+#include <fstream>
+#include <type_traits>
 #include <iostream>
 #include <sstream>
 #include <string>
@@ -569,14 +572,33 @@ int main(int argc, char** argv) {
 '''
 
 
-def cpp_main_versions(namespace_ident, protocols, labels):
-    """translator: reads a binary stream of any listed version, writes it for `target` ("cur" or a version label)"""
+def cpp_main_versions(namespace_ident, protocols, labels, out_cpp=None):
+    """translator: reads a binary stream of any listed version, writes it for `target` ("cur" or a version label).
+    With VF_STALE_FILE=<a stream of the same protocol> in the environment every value and vector the input is read into has just been filled
+    from that other stream (step by step, item by item / batch by batch): what is read from the input must not depend on it."""
     src = CPP_MAIN_VERSIONS_HEAD
     ns = namespace_ident
     for name, nstreams in protocols:
         args = "".join(f", bs[{i}]" for i in range(nstreams))
         src += f'  if (proto == "{name}") {{\n'
-        src += f'    auto copy = [&](auto& r, auto& w) {{ r.CopyTo(w{args}); }};\n'
+        steps = cpp_steps_from_header(out_cpp, name) if out_cpp else None
+        if steps:
+            stale, k = "", 0
+            for n, (step, ty, stream) in enumerate(steps):
+                if not stream:
+                    stale += f" {{ {ty} v; r0.Read{step}(v); r.Read{step}(v); w.Write{step}(v); }}"
+                elif n % 2 == 0:
+                    stale += (f" {{ {ty} v; bool m0 = true; for (;;) {{ if (m0) m0 = r0.Read{step}(v); if (!r.Read{step}(v)) break; w.Write{step}(v); }} "
+                              f"while (m0) {{ {ty} t; m0 = r0.Read{step}(t); }} w.End{step}(); }}")
+                    k += 1
+                else:
+                    stale += (f" {{ std::vector<{ty}> b; b.reserve(bs[{k}]); bool m0 = true; for (;;) {{ if (m0) m0 = r0.Read{step}(b); if (!r.Read{step}(b)) break; w.Write{step}(b); }} "
+                              f"while (m0) {{ std::vector<{ty}> t; t.reserve(8); m0 = r0.Read{step}(t); }} w.End{step}(); }}")
+                    k += 1
+            src += (f'    auto copy = [&](auto& r, auto& w) {{ if (const char* sf = std::getenv("VF_STALE_FILE")) {{ std::ifstream is0(sf, std::ios::binary); '
+                    f'std::decay_t<decltype(r)> r0(is0);{stale} }} else r.CopyTo(w{args}); }};\n')
+        else:
+            src += f'    auto copy = [&](auto& r, auto& w) {{ r.CopyTo(w{args}); }};\n'
         src += f'    {ns}::Version ver = {ns}::Version::Current;\n'
         for lb in labels:
             src += f'    if (target == "{lb}") ver = {ns}::Version::{lb};\n'
